@@ -1004,9 +1004,10 @@ def random_abort(rng, m):
 
 
 def name_first(manager_cls):
-    """does set_backend read `.backend_name` BEFORE its first write of the selection state?  (the tree: no - it is read
-    inside `cls._default_backend = backend.backend_name`, after the thread-local slot was written; the candidate repair
-    build/fix_candidates/C17_nameless_instance.diff: yes)  Passed to the model as a parameter (Corr/C17.v acase nf)."""
+    """does set_backend read `.backend_name` BEFORE its first write of the selection state?  (since /repo commit e7c4942: yes;
+    before it the name was read inside `cls._default_backend = backend.backend_name`, after the thread-local slot had been
+    written)  Passed to the model as a parameter (Corr/C17.v acase nf); a tree with the old order then agrees with the model
+    (nf = false) and is reported by the PREDICATE C17_rejection as a violation."""
     fn = _fn_ast(manager_cls.set_backend.__func__)
     for st in fn.body:
         if isinstance(st, ast.Expr) and isinstance(st.value, ast.Constant):
@@ -3669,7 +3670,7 @@ def run(chk):
             for o in outs:
                 chk.hist("operation", o)
             if fail is not None:
-                # must-report findings (the rebind sweep, the known nameless-instance finding) sort first: the list is capped at 60
+                # must-report findings (the rebind sweep, a raising call that changed the caller's backend) sort first: the list is capped at 60
                 found.append(((len(h) if mode not in (18, 19) else (0 if fail[0] == "C17_rejection" else len(h[1]) + len(h[5]))) if mode != 11 else 0, cid, fail))
     # shortest failing histories first; every finding carries the prefix of the history up to the failing step
     found.sort()
@@ -3804,8 +3805,8 @@ def run(chk):
                        "stopped after k = 0..59 bytecodes; plus 150 (thorough 2000) scenarios of THREE concurrent calls), "
                        "outcome compared with the set of outcomes of all sequential orders of their blocks (conclusion of C17_micro_atomic). After EVERY operation EVERY thread reports get_backend() and the identity "
                        "of the object executing a dispatched call. Source programs: the acts of set_backend / backend_context / current_backend are extracted from the "
-                       "current source (ast) for both manager classes and checked in Coq (effect-point discipline, block equivalence with the model's programs "
-                       "on 18 states each). DISPATCH (Model/BackendDispatch.v), per manager: 8 systematic histories (every (route, name) captured by thread 1 before a "
+                       "current source (ast) for both manager classes and checked in Coq (effect-point discipline; block equivalence with the model's programs "
+                       "decided by symbolic execution, a positive answer PROVED to mean equality on every state for every backend instance: C17_source_blocks_set / _enter / _exit). DISPATCH (Model/BackendDispatch.v), per manager: 8 systematic histories (every (route, name) captured by thread 1 before a "
                        "switch of thread 2 - set / context, local / global, with and without use_static_dispatch - then called by every thread incl. one STARTED "
                        "inside the context, through every route) + 200 (thorough 2500) random histories to length 14 (40) over {selections, use_static_dispatch, "
                        "use_dynamic_dispatch, capture, call captured, call} + EVERY feasible sequence of 3 letters (1393 / 1056 histories) of a 12-letter dispatch alphabet (tenalg 11: "
@@ -3901,45 +3902,7 @@ def run(chk):
                    "in the instance dict of the stock instances identify the object a call ran on / an attribute came from; tensorly.int64 (bound at import, "
                    "before the marking) is recognised as the stock numpy backend's value",
                    "use_static_dispatch / use_dynamic_dispatch are driven inside the fork-pool processes only; use_dynamic_dispatch is called after every dispatch history"]
-    return finish_with_local_known(chk)
-
-
-def clf_nameless_instance(f):
-    """the failing input is a call that raised by itself (kind 0) with the NAMELESS instance as its selector, or the exit of a
-    context whose saved backend is that instance (it was selected thread-locally before), and the predicate is the rejection clause"""
-    try:
-        inp = f["inputs"]
-        sc = abort_from_json(inp["scenario"])
-        if f.get("predicate") != "C17_rejection" or sc[3] != 0:
-            return False
-        ops = list(sc[1]) + [sc[2]]
-        return any(o[0] != "exit" and o[3] == NAMELESS for o in ops)
-    except Exception:  # noqa
-        return False
-
-
-CLASSIFIERS = {"nameless_instance_rejected_after_write": clf_nameless_instance}
-
-
-def finish_with_local_known(chk):
-    """chk.finish with the entries of known_findings.d/C17.json added to those of the merged known_findings.json (which the
-    coordinator regenerates from the .d files; until then a new entry would be invisible to common.load_known)"""
-    import json
-    orig = C.load_known
-
-    def load(prop):
-        known = orig(prop)
-        try:
-            extra = json.load(open(os.path.join(C.VERIF, "known_findings.d", "C17.json"))).get("findings", [])
-        except Exception:  # noqa
-            extra = []
-        ids = {k.get("id") for k in known}
-        return known + [dict(e, property="C17") for e in extra if e.get("id") not in ids]
-    C.load_known = load
-    try:
-        return chk.finish(CLASSIFIERS)
-    finally:
-        C.load_known = orig
+    return chk.finish({})
 
 
 def replay(payload):
